@@ -207,11 +207,61 @@ template <class A> static Verdict check_odd(const std::string &text, int s2pRaw,
   return Verdict::pass();
 }
 
+// wchar_t only: "unescaping any string works in place, never lengthens it, ... leaves malformed '%' sequences untouched".
+// Some characters of the text are lifted beyond 255 by adding 0x100 / 0x400 / 0x10000 (values whose low byte is the old
+// character: a hex digit behind '%' stays one for code that narrows to a byte). Such a character is no hex digit, no '%',
+// no '+' and no line break, so for the model it is an inert placeholder that must come out unchanged and in order.
+static Verdict check_wide_high(const std::string &text, bool p2s, int bc, unsigned sel) {
+  if (text.empty()) return Verdict::pass();
+  char ph = 0;
+  for (char c = 0x02; c < 0x20; c++) if (c != '\r' && c != '\n' && text.find(c) == std::string::npos) { ph = c; break; }
+  if (!ph) return Verdict::pass();
+  std::wstring w;
+  std::string modelIn;
+  std::vector<wchar_t> lifted;
+  static const wchar_t adds[] = {0x100, 0x400, 0x10000, 0x2100};
+  unsigned x = sel | 1;
+  for (size_t i = 0; i < text.size(); i++) {
+    unsigned char c = (unsigned char)text[i];
+    x = x * 1103515245u + 12345u;
+    bool behindPct = (i >= 1 && text[i - 1] == '%') || (i >= 2 && text[i - 2] == '%');
+    bool lift = c != 0 && c != '%' && ((behindPct && ((x >> 16) & 3) != 0) || ((x >> 16) & 15) == 0);
+    if (lift) { wchar_t h = (wchar_t)(adds[(x >> 20) & 3] + c); w += h; lifted.push_back(h); modelIn += ph; }
+    else { w += (wchar_t)c; modelIn += (char)c; }
+  }
+  if (lifted.empty()) return Verdict::pass();
+  bool raw = false;
+  std::string want = m_unesc(modelIn, p2s, bc, &raw);
+  if (raw && bc != URI_BR_DONT_TOUCH) return Verdict::pass();  // see above: raw breaks under a converting mode are not judged exactly
+  size_t n = w.size();
+  wchar_t *buf = gout().right_chars<wchar_t>(n + 1);
+  memcpy(buf, w.c_str(), (n + 1) * sizeof(wchar_t));
+  const wchar_t *end = uriUnescapeInPlaceExW(buf, p2s, (UriBreakConversion)bc);
+  stats().sub_evaluations++;
+  VF_REQUIRE(end != nullptr && end >= buf && end <= buf + n && *end == 0, "W: unescape of a text with characters beyond 255: returned pointer is not the terminator inside the string");
+  size_t k = 0;
+  bool same = (size_t)(end - buf) == want.size();
+  for (size_t i = 0; same && i < want.size(); i++) {
+    if (want[i] == ph) { if (k >= lifted.size() || buf[i] != lifted[k++]) same = false; }
+    else if (buf[i] != (wchar_t)(unsigned char)want[i]) same = false;
+  }
+  if (!same) {
+    u32s in32, out32;
+    for (wchar_t c : w) in32 += (char32_t)c;
+    for (const wchar_t *q = buf; q < end; q++) out32 += (char32_t)*q;
+    return Verdict::fail("W: unescape('" + esc(in32) + "',p2s=" + std::to_string(p2s) + ",bc=" + std::to_string(bc) + ") = '" + esc(out32) + "': characters beyond 255 are no hex digits, '%' behind them is malformed and stays");
+  }
+  stats().hit("wide_unescape_with_characters_beyond_255");
+  return Verdict::pass();
+}
+
 static Verdict check_one(const std::string &text, bool s2p, bool nb, bool p2s, int bc) {
   if (text.find('\0') != std::string::npos) return Verdict::discard();
   Verdict v = check_type<Api<char>>(text, s2p, nb, p2s, bc);
   if (v.kind != Verdict::PASS) return v;
-  return check_type<Api<wchar_t>>(text, s2p, nb, p2s, bc);
+  v = check_type<Api<wchar_t>>(text, s2p, nb, p2s, bc);
+  if (v.kind != Verdict::PASS) return v;
+  return check_wide_high(text, p2s, bc, (unsigned)fnv64(text));
 }
 
 static void classify_text(const std::string &text) {
